@@ -18,9 +18,10 @@ AnyDisc(obs) == \E k \in DOMAIN obs : obs[k].occ # <<>> /\ HasDisc(obs[k].occ[1]
 (* name of a failed clause: plain, or "/half-radius" when the half-radius model explains the logged result *)
 Named(base, disc, okHalf) == IF disc /\ okHalf THEN base \o "/half-radius" ELSE base
 
+(* band (B3): lanelets touched by deferred steps since the last rebuild may or may not be reported *)
 ByPosOk(e) == /\ Len(e.res) = Len(e.pts)
-              /\ \A k \in DOMAIN e.pts : SetOk(e.res[k], e.polys, LAMBDA P : PosRel(P, e.pts[k], Noisy(e)))
-ByShapeOk(e, h) == SetOk(e.res, e.polys, LAMBDA P : ShapeRelH(P, e.shape, Noisy(e), h))
+              /\ \A k \in DOMAIN e.pts : SetOkP(e.res[k], e.polys, LAMBDA P : PosRel(P, e.pts[k], Noisy(e)), Pending(e.routes))
+ByShapeOk(e, h) == SetOkP(e.res, e.polys, LAMBDA P : ShapeRelH(P, e.shape, Noisy(e), h), Pending(e.routes))
 ContPtsOk(e) == /\ Len(e.res) = Len(e.pts) /\ Bits(e.res) /\ e.lid \in Ids(e.polys)
                 /\ \A k \in DOMAIN e.pts : Compat(e.res[k], PosRel(RingOfId(e.polys, e.lid), e.pts[k], Noisy(e)))
 GetObsOk(e, h) == e.lid \in Ids(e.polys) /\ ObsOk(e.res, RingOfId(e.polys, e.lid), e.obs, Noisy(e), h)
@@ -36,7 +37,9 @@ SameRings(e)  == \A k \in DOMAIN e.polys : e.polys[k].id \in Ids(e.base) /\ e.po
 RouteOk(e, h) ==
     /\ UniqueIds(e.polys)
     /\ CASE e.route = "translate_rotate" -> NetFn(e.polys) = NetFn(MoveNet(e.a, e.base))
-         [] e.route = "remove"           -> SameRings(e) /\ Ids(e.polys) = Ids(e.base) \ {e.a[1]}
+         [] e.route \in {"remove", "remove_nortree"} -> SameRings(e) /\ Ids(e.polys) = Ids(e.base) \ {e.a[1]}
+         [] e.route \in {"add_extra", "add_extra_net"} ->
+                NetFn(e.polys) = [i \in Ids(e.base) \cup {ExtraId} |-> IF i = ExtraId THEN RingOf(Extra) ELSE NetFn(e.base)[i]]
          [] e.route = "from_network"     -> /\ SameRings(e)
                                             /\ MustSet(e.base, LAMBDA P : ShapeRelH(P, e.cut, Noisy(e), h)) \subseteq Ids(e.polys)
                                             /\ Ids(e.polys) \subseteq MaySet(e.base, LAMBDA P : ShapeRelH(P, e.cut, Noisy(e), h))
